@@ -444,7 +444,7 @@ static std::string json_of_cfg(Cfg const& c, char const* outcome, Symptom const&
 }
 
 // ===================================================================== batches in forked children =====================================================================
-struct Progress { volatile long idx; };
+struct Progress { volatile long idx; volatile long led[5]; };   // shared with the child: configuration being executed, ledger totals so far
 static Progress* g_prog = nullptr;
 static long g_eval = 0, g_nontriv = 0, g_correct = 0, g_rejected = 0, g_violating = 0, g_na = 0;
 static long g_form_n[NFORMS] = {};
@@ -476,7 +476,7 @@ static void run_batches(std::vector<Cfg> const& cfgs, std::size_t batch) {
 		std::size_t end = std::min(cfgs.size(), pos + batch);
 		int pfd[2]; if(pipe(pfd) != 0) { mc::R.exhaustive = false; return; }
 		int err = memfd_create("mpimc_err", 0);
-		g_prog->idx = static_cast<long>(pos);
+		g_prog->idx = static_cast<long>(pos); for(auto& x : g_prog->led) { x = 0; }
 		mc::cur_set("batch", replay_of(cfgs[pos]));
 		std::fflush(stdout); std::fflush(stderr);
 		pid_t pid = fork();
@@ -488,6 +488,7 @@ static void run_batches(std::vector<Cfg> const& cfgs, std::size_t batch) {
 				g_prog->idx = static_cast<long>(i);
 				alarm(30);
 				Outcome o = run_any(cfgs[i]);
+				{ auto const& L = ledger::l(); long const v[5] = {L.created, L.freed, L.commits, L.packs, L.unpacks}; for(int k = 0; k < 5; ++k) { g_prog->led[k] = v[k]; } }
 				if(o.kind != 'C') {
 					std::string line = std::to_string(i) + "\t" + o.kind;
 					for(auto const& s : o.sy) { line += "\t" + clean(s.tag) + "\t" + clean(s.detail); }
@@ -497,8 +498,7 @@ static void run_batches(std::vector<Cfg> const& cfgs, std::size_t batch) {
 			}
 			alarm(0);
 			g_prog->idx = static_cast<long>(i);
-			auto const& L = ledger::l();
-			std::string line = "done\t" + std::to_string(i) + "\t" + std::to_string(L.created) + "\t" + std::to_string(L.freed) + "\t" + std::to_string(L.commits) + "\t" + std::to_string(L.packs) + "\t" + std::to_string(L.unpacks) + "\n";
+			std::string line = "done\t" + std::to_string(i) + "\n";
 			if(write(pfd[1], line.data(), line.size()) < 0) { _exit(3); }
 			_exit(0);
 		}
@@ -507,13 +507,14 @@ static void run_batches(std::vector<Cfg> const& cfgs, std::size_t batch) {
 		close(pfd[0]);
 		int st = 0; waitpid(pid, &st, 0);
 		std::string se = mc::read_fd_all(err); close(err);
+		for(int k = 0; k < 5; ++k) { g_led[k] += g_prog->led[k]; }
 		// records of the configurations that completed
 		std::map<std::size_t, std::pair<char, std::vector<Symptom>>> rec; long done_at = -1;
 		{
 			std::istringstream is(out); std::string line;
 			while(std::getline(is, line)) {
 				std::vector<std::string> f; { std::string cur; for(char ch : line) { if(ch == '\t') { f.push_back(cur); cur.clear(); } else { cur += ch; } } f.push_back(cur); }
-				if(f.size() >= 7 && f[0] == "done") { done_at = std::atol(f[1].c_str()); for(int k = 0; k < 5; ++k) { g_led[k] += std::atol(f[static_cast<std::size_t>(2 + k)].c_str()); } continue; }
+				if(f.size() >= 2 && f[0] == "done") { done_at = std::atol(f[1].c_str()); continue; }
 				if(f.size() < 2 || f[1].empty()) { continue; }
 				auto& r = rec[static_cast<std::size_t>(std::atol(f[0].c_str()))]; r.first = f[1][0];
 				for(std::size_t k = 2; k + 1 < f.size(); k += 2) { r.second.push_back(Symptom{f[k], f[k + 1]}); }
